@@ -492,6 +492,19 @@ def maxpos(rep, c, sfx):
         while d < 6 and kind(e0) == "Path" and e0.get("res") == "local" and e0["id"] in lets:
             e0 = peel(lets[e0["id"]][0])
             d += 1
+        if kind(e0) == "Path" and e0.get("res") == "local" and depth < 4:
+            # a component of a pair of offsets handed around as one value (`(start, pos): (usize, usize)` as a parameter,
+            # `let (_, pos) = positions`): each expression the component can come from must itself be such an offset
+            comps = tuple_component_sources(e0["id"], fn, depth, trail)
+            if comps is not None:
+                out = []
+                for (ce, cfn) in comps:
+                    s2 = ok_source(ce, cfn, depth + 1, trail)
+                    if not s2:
+                        return None
+                    out.append(s2)
+                if out:
+                    return "component(%s)" % ",".join(sorted(set(out)))
         if kind(e0) == "Path" and e0.get("res") == "local":
             idx = [i for i, p in enumerate(fn["params"]) if p.get("k") == "PBind" and p["id"] == e0["id"]]
             if idx and depth < 4 and fn["path"] not in trail:
@@ -510,6 +523,65 @@ def maxpos(rep, c, sfx):
                         return None
                     out.append(s2)
                 return "param(%s)" % ",".join(sorted(set(out)))
+        return None
+
+    def slot_of(pat, lid):
+        q = pat
+        while q.get("k") in ("PRef", "PBox", "PDeref"):
+            q = q["pat"]
+        if q.get("k") == "PTuple":
+            for j, sub in enumerate(q.get("pats", [])):
+                if any(b[0] == lid for b in hirq.pat_bindings(sub)):
+                    return j
+        return None
+
+    def comp_of(expr, j, fn, depth, trail):
+        """expressions the j-th component of the tuple-valued expr can be: [(expr, fn)] or None when not traceable"""
+        e = peel(expr)
+        if depth > 5:
+            return None
+        if kind(e) == "Tup" and j < len(e["elems"]):
+            return [(e["elems"][j], fn)]
+        if kind(e) == "Path" and e.get("res") == "local":
+            lets = hirq.lets(fn["body"])
+            if e["id"] in lets and lets[e["id"]][0] is not None:
+                return comp_of(lets[e["id"]][0], j, fn, depth + 1, trail)
+            idx = [i for i, p in enumerate(fn["params"]) if p.get("k") == "PBind" and p["id"] == e["id"]]
+            if idx and fn["path"] not in trail:
+                sites = cg.callers_of(fn["path"])
+                out = []
+                for (p, n) in sites:
+                    caller = c.fn(p)
+                    args = hirq.call_args(n)
+                    if caller is None or idx[0] >= len(args):
+                        return None
+                    sub = comp_of(args[idx[0]], j, caller, depth + 1, trail + (fn["path"],))
+                    if sub is None:
+                        return None
+                    out += sub
+                return out or None
+        return None
+
+    def tuple_component_sources(lid, fn, depth, trail):
+        for i, p in enumerate(fn["params"]):
+            j = slot_of(p, lid)
+            if j is not None and fn["path"] not in trail:
+                out = []
+                for (cp, n) in cg.callers_of(fn["path"]):
+                    caller = c.fn(cp)
+                    args = hirq.call_args(n)
+                    if caller is None or i >= len(args):
+                        return None
+                    sub = comp_of(args[i], j, caller, depth + 1, trail + (fn["path"],))
+                    if sub is None:
+                        return None
+                    out += sub
+                return out or None
+        for st in walk(fn["body"]):
+            if st.get("k") == "Let" and st.get("init") is not None:
+                j = slot_of(st["pat"], lid)
+                if j is not None:
+                    return comp_of(st["init"], j, fn, depth + 1, trail)
         return None
 
     n = 0
@@ -628,6 +700,22 @@ def monotone(rep, c, sfx):
 
     def greater_guard(ctx, node, value_id=None, value_expr=None):
         for g in ctx.guards(node):
+            if g[0] == "arm":
+                # `match position.cmp(&self.max_position) { Ordering::Greater => .. }`
+                scr = peel(g[1]["scrut"])
+                vs = [str(v).split("::")[-1] for v in hirq.pat_variants(g[1]["arms"][g[2]]["pat"])]
+                if kind(scr) == "MethodCall" and scr["m"] == "cmp" and scr["args"] and len(vs) == 1:
+                    a, b2 = peel(scr["recv"]), peel(scr["args"][0])
+
+                    def is_max(e):
+                        return kind(e) == "Field" and e["name"] == "max_position"
+
+                    def is_val(e):
+                        return (value_id is not None and hirq.local_id(e) == value_id) or (
+                            value_expr is not None and hirq.expr_text(e) == hirq.expr_text(value_expr))
+                    if (vs[0] == "Greater" and is_val(a) and is_max(b2)) or (vs[0] == "Less" and is_max(a) and is_val(b2)):
+                        return True
+                continue
             if g[0] not in ("if", "guard") or (g[0] == "if" and g[2] is not True):
                 continue
             stack = [peel(g[1])]
